@@ -53,6 +53,15 @@ def nocopy_universe():
                       # every other carrier of strings / binaries: none of them may reference the buffer
                       field(11, "default", M(T("string"), T("i32"))), field(12, "default", M(T("string"), T("string"))), field(13, "default", L(T("binary"))),
                       field(14, "default", SET(T("string"))), field(15, "optional", M(T("i32"), T("binary"))), field(16, "default", M(T("string"), ST("NIn", True)))])
+    # the option spelled after an omitted annotation, in both tag carriers, plain and optional pointer
+    nt = [field(1, "default", T("string"), nocopy=True), field(2, "default", T("binary"), nocopy=True), field(3, "optional", T("string", True), nocopy=True),
+          field(4, "default", T("string")), field(5, "required", T("string"), nocopy=True)]
+    nt[0]["ftag"] = "1,default,,nocopy"
+    nt[1]["ttag"] = "blob,2,default,,nocopy"
+    nt[2]["ftag"] = "3 , optional , , nocopy "
+    nt[4]["ftag"] = "5,required,,nocopy"
+    d["NCt"] = struct(nt)
+    d["NCtN"] = struct([field(1, "default", ST("NCt", True)), field(2, "default", L(ST("NCt", True))), field(3, "default", T("string"), nocopy=True)])
     # writers that know one / two more fields than the holder type NIn
     d["WNIn1"] = struct(d["NIn"]["fields"] + [field(9, "default", T("string"))])
     d["WNIn2"] = struct(d["NIn"]["fields"] + [field(9, "default", T("string")), field(10, "default", T("binary"))])
@@ -233,6 +242,20 @@ def run14(prop, tier, seed, work):
                  {"op": "overwrite", "obj": 0, "byte": 255}, {"op": "recheck", "obj": 0, "after": "overwrite"}]
         sid = "C14-" + c["cid"]
         scen.append({"sid": sid, "prop": prop, "vals": [], "steps": steps, "tags": ["holder"], "dkey": sid})
+    # typeless spellings of the option
+    tcases = []
+    for ln in lens:
+        inner = {"f": {"1": U.strbytes(ln, 1), "2": {"nil": False, "b": U.strbytes(ln + 1, 2)}, "3": {"p": 1, "v": U.strbytes(ln, 3)}, "4": U.strbytes(ln, 4), "5": U.strbytes(ln + 2, 5)}, "unk": []}
+        tcases.append({"cid": "NT|%d" % ln, "w": "NCtN", "val": {"f": {"1": {"p": 1, "v": inner}, "2": {"nil": False, "items": [{"p": 1, "v": inner}]}, "3": U.strbytes(ln, 6)}, "unk": []},
+                       "ord": ["asc", "desc"][ln % 2], "trail": [], "mut": "none"})
+    tmsgs, st3 = vlib.gen_messages(work, defs_path, tcases)
+    res.tlc_states += st3.get("distinct", 0)
+    res.tlc_transitions += st3.get("generated", 0)
+    for c in tcases:
+        steps = [{"op": "decode", "ty": "NCtN", "in": tmsgs[c["cid"]][0], "dest": "fresh"}, {"op": "walk", "objs": [0]},
+                 {"op": "overwrite", "obj": 0, "byte": 255}, {"op": "recheck", "obj": 0, "after": "overwrite"}]
+        sid = "C14-" + c["cid"]
+        scen.append({"sid": sid, "prop": prop, "vals": [], "steps": steps, "tags": ["typeless-spelling"], "dkey": sid})
     # a decode that fails inside the message, then the complete message: the second result is like the first-ever one
     for ci, c in enumerate(cases):
         if (ci % 5 if quick else ci % 2):      # 5 is coprime to the 4 field orders: all of them come up
